@@ -3,10 +3,13 @@ package props
 import (
 	"fmt"
 	"regexp"
+	"strings"
+	"sync"
 	"time"
 
 	"verif/engine"
 	"verif/fw"
+	"verif/refmodel"
 	"verif/world"
 )
 
@@ -19,6 +22,21 @@ func c07Run(c *fw.Case, scenarioSeed uint64, k, k2 int) { c07RunAt(c, scenarioSe
 // c07RunAt: with rpc set, k counts the individual Atomix write RPCs of the system under test instead of decorated
 // calls, so the kill can fall between the two Atomix writes of one store method
 func c07RunAt(c *fw.Case, scenarioSeed uint64, k, k2 int, rpc bool) {
+	c07RunSteps(c, scenarioSeed, nil, k, k2, rpc, false)
+}
+
+// c07Overlap is the directed scenario of the family "successor resumes before its predecessor": three Sets whose
+// proposals for t1 are in flight together (issued without waiting), the second one spanning both targets
+var c07Overlap = []engine.Step{
+	{Kind: "connect", Target: "t1"}, {Kind: "connect", Target: "t2"},
+	{Kind: "set", NoWait: true, Ops: []refmodel.Op{up("t1", "/foo", "v1"), up("t1", "/a/b", "v1")}},
+	{Kind: "set", NoWait: true, Ops: []refmodel.Op{up("t1", "/bar", "v2"), up("t2", "/foo", "v2")}},
+	{Kind: "set", NoWait: true, Ops: []refmodel.Op{del("t1", "/a"), up("t1", "/goo", "v3")}},
+}
+
+// c07RunSteps: with fixed steps the scenario is given; with reverse the tasks of a restarted process make their first
+// call the later the LOWER the index of their transaction / proposal is, so that successors resume before predecessors
+func c07RunSteps(c *fw.Case, scenarioSeed uint64, fixed []engine.Step, k, k2 int, rpc bool, reverse bool) {
 	p := &engine.Profile{Targets: []string{"t1", "t2"}, MinOps: 3, MaxOps: 6, PMulti: 40, PPoison: 15, PEq: 5, PDevReject: 10, PDelete: 30, PRollback: 15, PEnv: 10, PNoWait: 50, PSync: 20, PStartOffline: 20, PDevFault: 5, PSerializable: 25, Paths: "rich"}
 	opts := world.Options{Targets: p.Targets}
 	w, err := world.New(opts)
@@ -27,8 +45,50 @@ func c07RunAt(c *fw.Case, scenarioSeed uint64, k, k2 int, rpc bool) {
 		return
 	}
 	defer w.Close()
-	steps := engine.GenScenario(fw.NewRng(scenarioSeed), p, w.Schema)
+	steps := fixed
+	if steps == nil {
+		steps = engine.GenScenario(fw.NewRng(scenarioSeed), p, w.Schema)
+	}
 	e := &engine.Exec{C: c, W: w, P: p, Steps: steps, Opts: opts, SecondCrash: k2}
+	// "x the schedule in which work resumes": in two of three cases the first call each controller task makes in a
+	// restarted process is delayed by 0..30 ms, so that the order in which the pending transactions and proposals
+	// are examined again varies from case to case (the third case leaves the order to the watchers' replay)
+	mode := c.Rng.Fork("resume").Intn(3)
+	if reverse {
+		mode = 1
+	}
+	if mode > 0 {
+		dr := &lockedRng{r: c.Rng.Fork("resume-delays")}
+		var mu sync.Mutex
+		seen := map[string]bool{}
+		w.SetDelay(func(kind string) {
+			inc := w.Cur()
+			t := world.CurrentTask()
+			if inc == nil || inc.N < 2 || t == "" || strings.HasPrefix(t, "handler:") {
+				return
+			}
+			key := fmt.Sprintf("%d/%s", inc.N, t)
+			mu.Lock()
+			first := !seen[key]
+			seen[key] = true
+			mu.Unlock()
+			if first {
+				c.Count("resumed_tasks_delayed", 1)
+				if reverse {
+					// task names end in the index of their transaction ("transaction:2", "proposal:t1-2")
+					idx := 0
+					if i := strings.LastIndexAny(t, ":-"); i >= 0 {
+						fmt.Sscan(t[i+1:], &idx)
+					}
+					if idx > 0 && idx < 4 {
+						time.Sleep(time.Duration(4-idx) * 60 * time.Millisecond)
+					}
+					return
+				}
+				time.Sleep(time.Duration(dr.Intn(30*mode)) * time.Millisecond)
+			}
+		})
+	}
 	if rpc {
 		w.CrashBeforeRPC(int64(k))
 	} else {
@@ -62,6 +122,15 @@ func c07RunAt(c *fw.Case, scenarioSeed uint64, k, k2 int, rpc bool) {
 	}
 }
 
+const directedK = 130
+
+func nRPCrandom(tier string) int {
+	if tier == "thorough" {
+		return 2000
+	}
+	return 100
+}
+
 func init() {
 	const quickScenarios, quickK = 3, 150
 	const thoroughScenarios, thoroughK = 60, 200
@@ -77,9 +146,9 @@ func init() {
 		Floors: map[string]int64{"crashes_injected": 400, "crashes_injected_between_atomix_writes": 150, "executions_reaching_final_state": 500},
 		Cases: func(tier string) int {
 			if tier == "thorough" {
-				return thoroughScenarios*thoroughK + 3000 + thoroughRPCscenarios*thoroughRPCk + thoroughRPCrandom
+				return thoroughScenarios*thoroughK + 3000 + thoroughRPCscenarios*thoroughRPCk + thoroughRPCrandom + 2*directedK
 			}
-			return quickScenarios*quickK + 140 + quickRPCk + quickRPCrandom
+			return quickScenarios*quickK + 140 + quickRPCk + quickRPCrandom + directedK
 		},
 		Run: func(c *fw.Case) {
 			ns, nk, nrs, nrk := quickScenarios, quickK, 1, quickRPCk
@@ -112,6 +181,14 @@ func init() {
 				c07RunAt(c, fw.Derive(c.Seed, "C07-scenario", fmt.Sprint(sc)), 1+i%nrk, 0, true)
 				return
 			}
-			c07RunAt(c, fw.Derive(c.Seed, "C07-random-scenario", fmt.Sprint(c.Index)), 1+r.Intn(220), 0, true)
+			if i -= nrs * nrk; i < nRPCrandom(c.Tier) {
+				c07RunAt(c, fw.Derive(c.Seed, "C07-random-scenario", fmt.Sprint(c.Index)), 1+r.Intn(220), 0, true)
+				return
+			}
+			// directed: overlapping proposals on one target, every kill position, predecessors resume last
+			i -= nRPCrandom(c.Tier)
+			kk, gran := 1+i%directedK, i/directedK
+			c07RunSteps(c, 0, c07Overlap, kk, 0, gran == 1, true)
+			c.Class(fmt.Sprintf("directed-overlap k=%d rpc=%v", kk, gran == 1))
 		}})
 }
